@@ -953,19 +953,22 @@ theorem tokensFromLine_sliceExact (uid : α → Option Key) (f : List α) (line 
     (h : tokensFromLine f (processTokens uid f) line = .ok t) : t.Exact f ∧ t.line = line :=
   tokensFromLine_exact uid f line t h
 
-/-- **get_n_tokens_before_and_after_tokens**, partial: the recorded start is `i - n` for a matched
-    position `i` whose line is recorded; the region is a slice when `n ≤ i`.  The excluded case is
-    real for the model of the code as written: `nBeforeAndAfter_negative_start` -/
-theorem nBeforeAndAfter_sliceExact_partial (uid : α → Option Key) (f : List α) (n : Nat) (cs : List Cls)
+/-- **get_n_tokens_before_and_after_tokens** (after the repair of the extractor: `if iStart >= 0`):
+    every region is the slice at its recorded start, which is `i - n` for a matched position `i ≥ n`
+    whose line is recorded.  (Before the repair the statement carried the guard `n ≤ i` and the
+    witness `nBeforeAndAfter_negative_start`: start `-1`, tokens `l[-1:2] = []`.) -/
+theorem nBeforeAndAfter_sliceExact (uid : α → Option Key) (f : List α) (n : Nat) (cs : List Cls)
     (r : List (Toi α)) (h : nBeforeAndAfter f (processTokens uid f) n cs = .ok r) :
-    ∀ t ∈ r, ∃ i : Nat, t.start = some ((i : Int) - (n : Int)) ∧ t.line = lineNo uid f i ∧ (n ≤ i → t.Exact f) :=
-  nBeforeAndAfter_exact_partial uid f n cs r h
+    ∀ t ∈ r, t.Exact f ∧ ∃ i : Nat, n ≤ i ∧ t.start = some ((i : Int) - (n : Int)) ∧ t.line = lineNo uid f i := by
+  intro t ht
+  obtain ⟨he, i, hn, hs, hl⟩ := nBeforeAndAfter_exact uid f n cs r h t ht
+  exact ⟨he, i, hn, by rw [hs]; congr 1; omega, hl⟩
 
-/-- a matched token closer than `n` to the beginning of the file: start `-1`, and Python's
-    negative slice bound makes the token list `l[-1:2] = []` -/
-theorem nBeforeAndAfter_negative_start :
+/-- the input of the former witness — a matched token closer than `n` to the beginning of the file —
+    gets no region any more (the real extractor is asked the same question on every run) -/
+theorem nBeforeAndAfter_short_prefix_skipped :
     (nBeforeAndAfter [1, 0, 2] (processTokens wView.uid [1, 0, 2]) 1 [⟨some ("w", "y"), 1⟩]).toOption.map
-      (fun r => r.map (fun t => (t.start, t.line, t.toks))) = some [(some (-1), 1, [])] := by
+      (fun r => r.map (fun t => (t.start, t.line, t.toks))) = some [] := by
   decide +kernel
 
 /-- **get_tokens_bounded_by_token_when_between_tokens** -/
@@ -1179,23 +1182,30 @@ theorem fromNonWsUntil_start_none :
       (fun r => r.map (fun t => (t.start, t.line, t.toks))) = some [(none, 1, [3])] := by
   decide +kernel
 
-/-- **get_if_statement_conditions**, partial: the recorded line is the line of the recorded start;
-    the region is the slice at its start without `fRemoveWhitespace`, and with it whenever the
-    region contains anything but whitespace / line breaks / comments.  Otherwise:
-    `ifConditions_blank_condition` -/
-theorem ifConditions_sliceExact_partial (V : View α) (P : PCls) (f : List α) (ifK elsifK thenK : Option Key) (rm : Bool)
+/-- **get_if_statement_conditions** (after the repair of `remove_leading_…` / `remove_trailing_whitespace_and_comments`
+    and of the extractor): every region is the slice at its recorded start, the recorded line is the
+    line of that start, and with `fRemoveWhitespace` no region is empty.  (Before the repair the slice
+    part carried the guard "the region contains anything but whitespace / line breaks / comments" and
+    the witness `ifConditions_blank_condition`: start 0, tokens `[comment, ws]`.) -/
+theorem ifConditions_sliceExact (V : View α) (P : PCls) (f : List α) (ifK elsifK thenK : Option Key) (rm : Bool)
     (r : List (Toi α)) (h : ifConditions V P f (processTokens V.uid f) ifK elsifK thenK rm = .ok r) :
-    ∀ t ∈ r, (∃ s : Int, t.start = some s ∧ t.line = lineNo V.uid f s.toNat) ∧
-      ((rm = false ∨ ∃ x ∈ t.toks, isWsOrComment V P x = false) → t.Exact f) :=
-  ifConditions_exact_partial V P f ifK elsifK thenK rm r h
+    ∀ t ∈ r, (∃ s : Int, t.start = some s ∧ t.line = lineNo V.uid f s.toNat) ∧ t.Exact f ∧
+      (rm = true → t.toks ≠ []) :=
+  ifConditions_exact V P f ifK elsifK thenK rm r h
 
-/-- `if ws comment then cr`: `remove_leading_whitespace_and_comments` falls through its `for … else`
-    and returns the position of the `if` keyword itself, `remove_trailing_whitespace_and_comments`
-    returns the list it reversed in place: start 0, tokens `[comment, ws]` -/
-theorem ifConditions_blank_condition :
+/-- the input of the former witness, `if ws comment then cr`: no condition, no region — if_002 has
+    nothing to overwrite (`if then` used to become `() then`) -/
+theorem ifConditions_blank_condition_skipped :
     (ifConditions xView xP [8, 1, 2, 5, 0] (processTokens xView.uid [8, 1, 2, 5, 0]) (some ("w", "kw")) (some ("w", "open"))
         (some ("w", "close")) true).toOption.map
-      (fun r => r.map (fun t => (t.start, t.line, t.toks))) = some [(some 0, 1, [2, 1])] := by
+      (fun r => r.map (fun t => (t.start, t.line, t.toks))) = some [] := by
+  decide +kernel
+
+/-- … and without `fRemoveWhitespace` the same input yields the untrimmed slice after the keyword -/
+theorem ifConditions_blank_condition_untrimmed :
+    (ifConditions xView xP [8, 1, 2, 5, 0] (processTokens xView.uid [8, 1, 2, 5, 0]) (some ("w", "kw")) (some ("w", "open"))
+        (some ("w", "close")) false).toOption.map
+      (fun r => r.map (fun t => (t.start, t.line, t.toks))) = some [(some 1, 1, [1, 2])] := by
   decide +kernel
 
 /-- **get_association_elements_between_tokens**: a second `formal_part` token inside one element
@@ -1343,21 +1353,22 @@ open Vsgm Vsgm.TM Vsgm.TM.Lemmas Vsgm.TM.X Vsgm.TM.X.Lemmas
 
 variable {α : Type}
 
-/-- **get_tokens_starting_with_token_and_ending_with_one_of_possible_tokens**, partial: a region that
-    holds anything but whitespace / line breaks / comments is the slice at its recorded start.
-    Otherwise: `startingEnding_blank_region` -/
-theorem startingEnding_sliceExact_partial (V : View α) (P : PCls) (f : List α) (startCs endCs : List Cls)
+/-- **get_tokens_starting_with_token_and_ending_with_one_of_possible_tokens** (after the repair of the two
+    trimming helpers): every region is the slice at its recorded start.  (Before the repair: guard "the
+    region holds anything but whitespace / line breaks / comments", witness `startingEnding_blank_region`.) -/
+theorem startingEnding_sliceExact (V : View α) (P : PCls) (f : List α) (startCs endCs : List Cls)
     (inclStart inclEnd earliest : Bool) (r : List (Toi α))
     (h : startingEnding V P f (processTokens V.uid f) startCs endCs inclStart inclEnd earliest = .ok r) :
-    ∀ t ∈ r, (∃ x ∈ t.toks, isWsOrComment V P x = false) → t.Exact f :=
-  startingEnding_exact_partial V P f startCs endCs inclStart inclEnd earliest r h
+    ∀ t ∈ r, t.Exact f :=
+  startingEnding_exact V P f startCs endCs inclStart inclEnd earliest r h
 
-/-- `kw ws comment ) cr` without the bounding tokens: the region is recorded at the position of the
-    START token (one too small) and its tokens come out reversed -/
-theorem startingEnding_blank_region :
+/-- the input of the former witness, `kw ws comment ) cr` without the bounding tokens: the empty
+    region at the position of the end token (it used to be recorded at the START token with its
+    tokens reversed) -/
+theorem startingEnding_blank_region_empty :
     (startingEnding xView xP [8, 1, 2, 5, 0] (processTokens xView.uid [8, 1, 2, 5, 0]) [⟨some ("w", "kw"), 8⟩]
         [⟨some ("w", "close"), 5⟩] false false false).toOption.map
-      (fun r => r.map (fun t => (t.start, t.line, t.toks))) = some [(some 0, 1, [2, 1])] := by
+      (fun r => r.map (fun t => (t.start, t.line, t.toks))) = some [(some 3, 1, [])] := by
   decide +kernel
 
 example : xShow (startingEnding xView xP [8, 1, 3, 1, 5, 0] (processTokens xView.uid [8, 1, 3, 1, 5, 0]) [⟨some ("w", "kw"), 8⟩]
